@@ -33,6 +33,8 @@ pub struct Prop {
     pub rule: &'static str,
     pub assumptions: &'static [&'static str],
     pub extra: fn(&Ctx) -> Map<String, Value>,
+    /// libFuzzer executions per worker in the thorough tier (0: no coverage-guided stage)
+    pub fuzz_runs: u64,
 }
 
 pub fn no_extra(_: &Ctx) -> Map<String, Value> {
@@ -64,7 +66,7 @@ pub fn replay_file(ctx: &Ctx, prop: &Prop, file: &Path, strict: bool) -> i32 {
         }
     };
     let kind = v["kind"].as_str().unwrap_or("");
-    let verdict = crate::core::guard(|| (prop.replay)(ctx, kind, &v["case"]));
+    let verdict = crate::core::guard(|| replay_any(ctx, prop, kind, &v["case"]));
     match verdict {
         Ok(Some(Verdict::Pass(p))) => {
             if strict {
@@ -98,6 +100,19 @@ pub fn replay_file(ctx: &Ctx, prop: &Prop, file: &Path, strict: bool) -> i32 {
     }
 }
 
+/// `kind == "corpus"`: a raw fuzz input (target + bytes) decoded by `targets`; everything else
+/// is the property's own case format.
+pub fn replay_any(ctx: &Ctx, prop: &Prop, kind: &str, case: &Value) -> Option<Verdict> {
+    if kind == "corpus" {
+        let target = crate::targets::TARGETS.into_iter().find(|t| Some(*t) == case["target"].as_str())?;
+        let bytes = crate::core::unhex(case["input_hex"].as_str()?)?;
+        let id = all().into_iter().find(|p| p.id == prop.id)?.id;
+        let c = crate::targets::CorpusCase { target, file: String::new(), bytes };
+        return Some(crate::targets::check_corpus_case(id, &c, ctx).0);
+    }
+    (prop.replay)(ctx, kind, case)
+}
+
 /// Stage 1 of every run: replay /verif/regress/<ID>/*.json (every shrunk failure ever found).
 pub fn replay_regressions(ctx: &Arc<Ctx>, prop: &Prop) {
     let dir = ctx.root.join("regress").join(prop.id);
@@ -114,7 +129,7 @@ pub fn replay_regressions(ctx: &Arc<Ctx>, prop: &Prop) {
         let kind = v["kind"].as_str().unwrap_or("").to_string();
         let case = RawCase { kind: kind.clone(), v: v["case"].clone() };
         n += 1;
-        ctx.run_single("regress", "regress", &case, |c| match (prop.replay)(ctx, &c.kind, &c.v) {
+        ctx.run_single("regress", "regress", &case, |c| match replay_any(ctx, prop, &c.kind, &c.v) {
             Some(Verdict::Pass(mut p)) => {
                 p.class = format!("{}:{}", c.kind, p.class);
                 Verdict::Pass(p)
